@@ -502,6 +502,8 @@ def run(ctx):
     check_dict_keys(ctx, "R20")
     ctx.rule("R21", "FCHK gradient / Hessian / polarizability: packed by the writer, unpacked by the reader to the same array (evaluated)", "Fortran-order flattening or a strict lower triangle: derivatives attached to other atoms, diagonal force constants lost")
     check_fchk_packed_arrays(ctx, "R21")
+    ctx.rule("R22", "FCIDUMP: the symmetry-unique records written rebuild the full integral arrays when read (evaluated)", "`>=` turned into `>` or a loop bound one short: a class of integrals is never written and comes back as zero")
+    check_fcidump_integrals(ctx, "R22")
     ctx.rule("R14", "formats read by splitting at white space are written with a literal separator between neighbouring fields", "for a large system a counter fills its field and touches its neighbour: the written line has fewer tokens and cannot be read back")
     with open(os.path.join(VERIF_DIR, "spec", "layouts.json")) as fh:
         column_formats = set(json.load(fh)) - {"_comment"}
@@ -769,3 +771,70 @@ def check_fchk_packed_arrays(ctx, rid):
         else:
             where = "shape " + str(back.shape) if back.shape != want.shape else "element " + str([int(v) + 1 for v in np.argwhere(np.abs(back - want) > 1e-12)[0]])
             ctx.violate(rid, f"FCHK '{label}': written as {flat.tolist()}, read back with {where} wrong: values are attached to other matrix elements / atoms", do, stmt, construct=f"fchk {label}: round trip differs")
+
+
+def check_fcidump_integrals(ctx, rid):
+    """FCIDUMP: the symmetry-unique integrals the writer lists are enough -- and correctly indexed -- for the reader to
+    rebuild the full arrays.  The writer's two integral loops are evaluated (model output file) on a 3-orbital set of
+    one- and two-electron integrals whose symmetry-distinct elements all differ; the reader's record loop (model line
+    iterator; `set_four_index_element` interpreted as well) must give both arrays back."""
+    from ..accessors import AccessorEval, Raised, Rec, TextSink
+    from ..symarr import NotSymbolic
+
+    prog = ctx.prog
+    do = prog.format_op("fcidump", "dump_one")
+    lo = prog.format_op("fcidump", "load_one")
+    licls = prog.cls("iodata.utils.LineIterator")
+    iocls = prog.cls("iodata.iodata.IOData")
+    n = 3
+    orbit = lambda i, j, k, l: [(i, j, k, l), (j, i, l, k), (k, l, i, j), (l, k, j, i), (k, j, i, l), (i, l, k, j), (l, i, j, k), (j, k, l, i)]
+    two = np.zeros((n, n, n, n))
+    val = 1.0
+    for i in range(n):
+        for j in range(n):
+            for k in range(n):
+                for l in range(n):
+                    if two[i, j, k, l] == 0.0:
+                        val += 0.125
+                        for idx in orbit(i, j, k, l):
+                            two[idx] = val
+    one = np.array([[0.5, 1.5, 2.5], [1.5, 3.5, 4.5], [2.5, 4.5, 5.5]])
+    wloops = [st for st in do.body if isinstance(st, ast.For)]
+    pre = [st for st in do.body if isinstance(st, ast.Assign) and any(isinstance(t, ast.Name) and t.id in ("one_mo", "two_mo", "nactive") for t in st.targets)]
+    rloop = next((st for st in lo.body if isinstance(st, ast.For) and any(isinstance(x, ast.Call) and isinstance(x.func, ast.Name) and x.func.id == "set_four_index_element" for x in ast.walk(st))), None)
+    if len(wloops) < 2 or rloop is None:
+        raise AnalysisError("fcidump: the integral loops of dump_one / the record loop of load_one were not found")
+    f0 = {name: None for name in iocls.fields}
+    f0.update(one_ints={"core_mo": one}, two_ints={"two_mo": two}, extra={})
+    data = Rec(iocls, **f0)
+    sink = TextSink()
+    try:
+        ev = AccessorEval(prog, iocls, limit=40000)
+        ev.module = do.module
+        ev._block([*pre, *wloops], {do.posparams[0]: sink, do.posparams[1]: data})
+        lines = [ln + "\n" for ln in sink.text.split("\n") if ln.strip()]
+        lit = Rec(licls, filename="F", fh=iter(lines), lineno=0, stack=[])
+        local = {lo.posparams[0]: lit, "one_mo": np.zeros((n, n)), "two_mo": np.zeros((n, n, n, n)), "core_energy": 0.0, "nbasis": n}
+        ev2 = AccessorEval(prog, licls, limit=80000)
+        ev2.module = lo.module
+        ev2.warnings = 0
+        ev2._block([rloop], local)
+    except Raised as exc:
+        ctx.violate(rid, f"FCIDUMP integrals: evaluation raises {exc.args[0]}", do, wloops[0], construct="fcidump integrals: raises")
+        return
+    except NotSymbolic as exc:
+        raise AnalysisError(f"fcidump integral loops are outside the evaluation whitelist: {exc}") from exc
+    got2, got1 = np.asarray(local["two_mo"], dtype=float), np.asarray(local["one_mo"], dtype=float)
+    bad = None
+    if np.abs(got1 - one).max() > 1e-12:
+        idx = tuple(int(v) for v in np.argwhere(np.abs(got1 - one) > 1e-12)[0])
+        bad = f"one-electron integral {idx} comes back as {got1[idx]}, written {one[idx]}"
+    elif np.abs(got2 - two).max() > 1e-12:
+        idx = tuple(int(v) for v in np.argwhere(np.abs(got2 - two) > 1e-12)[0])
+        bad = f"two-electron integral {idx} comes back as {got2[idx]}, the object holds {two[idx]} ({int((np.abs(got2 - two) > 1e-12).sum())} of {n ** 4} elements differ: the symmetry-unique records written do not cover / do not address the array)"
+    elif getattr(ev2, "warnings", 0):
+        bad = f"{ev2.warnings} duplicate record(s) are written (the reader warns and ignores them)"
+    if bad:
+        ctx.violate(rid, f"FCIDUMP integrals, {bad}", do, wloops[0], construct=f"fcidump integrals: {bad}"[:170])
+    else:
+        ctx.ok(rid, f"FCIDUMP: {len(lines)} symmetry-unique records written for 3 orbitals rebuild all {n ** 4} two-electron and {n * n} one-electron integrals", f"{do.module.relpath}:{wloops[0].lineno}")
